@@ -83,3 +83,433 @@ Theorem slate_mcmc_kernel_stochastic : forall own c seed m x,
   (0 < m)%nat -> Permutation x seed ->
   qsum (map (swap_kernel list_peqb (slate_accept own c) m x) (arrangements_ms seed)) == 1.
 Proof. intros own c seed m x. apply swap_kernel_stochastic. Qed.
+
+(* ------------------------------------------------------------------ *)
+(** * Index bookkeeping for [categorical (combine (seq 0 (length values)) values)] *)
+
+Lemma combine_seq_in : forall (vs : list Q) s i x,
+  In (i, x) (combine (seq s (length vs)) vs) -> exists j, i = (s + j)%nat /\ nth_error vs j = Some x.
+Proof.
+  induction vs as [|y vs IH]; intros s i x H; cbn [length seq combine] in H; [destruct H|].
+  destruct H as [E|H].
+  - injection E as <- <-. exists O. split; [lia|reflexivity].
+  - destruct (IH (S s) i x H) as (j & -> & Hj). exists (S j). split; [lia|exact Hj].
+Qed.
+
+Lemma categorical_index : forall (values : list Q) i w,
+  In (i, w) (categorical (combine (seq 0 (length values)) values)) ->
+  exists x, nth_error values i = Some x.
+Proof.
+  intros values i w H. unfold categorical in H. apply in_map_iff in H.
+  destruct H as ([i' x] & E & Hin). cbn [fst snd] in E. injection E as <- _.
+  destruct (combine_seq_in values 0 i' x Hin) as (j & -> & Hj). exists x. exact Hj.
+Qed.
+
+Lemma nth_error_same_length : forall (A B : Type) (l : list A) (m : list B) i x,
+  length l = length m -> nth_error m i = Some x -> exists a, nth_error l i = Some a.
+Proof.
+  intros A B l m i x Hlen Hx. destruct (nth_error l i) as [a|] eqn:E; [exists a; reflexivity|].
+  apply nth_error_None in E. assert (Hs : nth_error m i <> None) by congruence.
+  apply nth_error_Some in Hs. lia.
+Qed.
+
+(* a sum indexed by positions of [values] is a sum over the (slate, value) pairs *)
+Lemma qsum_combine_seq_reindex : forall (blocs : list bloc) (values : list Q) s
+    (f : nat -> Q -> Q) (g : bloc -> Q -> Q),
+  length blocs = length values ->
+  (forall j b x, nth_error blocs j = Some b -> nth_error values j = Some x -> f (s + j)%nat x == g b x) ->
+  qsum (map (fun p : nat * Q => f (fst p) (snd p)) (combine (seq s (length values)) values)) ==
+  qsum (map (fun p : bloc * Q => g (fst p) (snd p)) (combine blocs values)).
+Proof.
+  induction blocs as [|b blocs IH]; intros [|x values] s f g Hlen H; cbn [length] in Hlen; try discriminate.
+  - reflexivity.
+  - cbn [length seq combine map fst snd]. rewrite !qsum_cons. apply Qplus_comp.
+    + rewrite <- (H O b x eq_refl eq_refl). rewrite Nat.add_0_r. reflexivity.
+    + apply IH; [lia|]. intros j b' x' Hb' Hx'.
+      rewrite <- (H (S j) b' x' Hb' Hx'). replace (S s + j)%nat with (s + S j)%nat by lia. reflexivity.
+Qed.
+
+Lemma map_fst_combine_eq : forall (A B : Type) (l : list A) (m : list B),
+  length l = length m -> map fst (combine l m) = l.
+Proof.
+  intros A B l. induction l as [|a l IH]; intros [|b m] H; cbn in H; try discriminate; [reflexivity|].
+  cbn [combine map fst]. rewrite IH; [reflexivity|lia].
+Qed.
+
+(* ------------------------------------------------------------------ *)
+(** * One step of the type loop: bookkeeping shared by B2 and B3 *)
+
+Lemma arrangements_nonempty : forall l, arrangements_ms l <> [].
+Proof.
+  intros l E. assert (H : In l (arrangements_ms l)) by (apply arrangements_spec; apply Permutation_refl).
+  rewrite E in H. destruct H.
+Qed.
+
+Lemma step_decomp : forall (blocs : list bloc) i b,
+  NoDup blocs -> nth_error blocs i = Some b ->
+  exists l1 l2, blocs = l1 ++ b :: l2 /\ length l1 = i /\ remove_nth i blocs = l1 ++ l2 /\
+                ~ In b l1 /\ ~ In b l2 /\ NoDup (l1 ++ l2).
+Proof.
+  intros blocs i b Hnd Eb. destruct (nth_error_decomp _ blocs i b Eb) as (l1 & l2 & Hb & Hl1 & Hrb).
+  exists l1, l2. split; [exact Hb|]. split; [exact Hl1|]. split; [exact Hrb|].
+  rewrite Hb in Hnd. split; [|split].
+  - intros Hc. apply NoDup_remove_2 in Hnd. apply Hnd. apply in_or_app. left. exact Hc.
+  - intros Hc. apply NoDup_remove_2 in Hnd. apply Hnd. apply in_or_app. right. exact Hc.
+  - apply NoDup_remove_1 in Hnd. exact Hnd.
+Qed.
+
+(* the drawn slate is used up: it leaves, the others are untouched, one flip less is needed *)
+Lemma step_full : forall sizes (l1 l2 : list bloc) b acc n,
+  ~ In b l1 -> ~ In b l2 ->
+  (forall y, In y (l1 ++ b :: l2) -> (count_bloc y acc < size_of sizes y)%nat) ->
+  S n = rem sizes (l1 ++ b :: l2) acc ->
+  count_bloc b (b :: acc) = size_of sizes b ->
+  (forall y, In y (l1 ++ l2) -> (count_bloc y (b :: acc) < size_of sizes y)%nat) /\
+  n = rem sizes (l1 ++ l2) (b :: acc).
+Proof.
+  intros sizes l1 l2 b acc n Hb1 Hb2 Hlt Hn Hfull. split.
+  - intros y Hy. assert (Hne : y <> b).
+    { intros ->. apply in_app_or in Hy. destruct Hy; contradiction. }
+    rewrite count_bloc_cons_other by exact Hne. apply Hlt.
+    apply in_app_or in Hy. apply in_or_app. destruct Hy; [left|right; right]; assumption.
+  - rewrite rem_app, rem_cons in Hn.
+    rewrite rem_app, (rem_notin sizes l1 b acc Hb1), (rem_notin sizes l2 b acc Hb2).
+    rewrite count_bloc_cons_same in Hfull. lia.
+Qed.
+
+(* the drawn slate still has room *)
+Lemma step_room : forall sizes (l1 l2 : list bloc) b acc n,
+  ~ In b l1 -> ~ In b l2 ->
+  (forall y, In y (l1 ++ b :: l2) -> (count_bloc y acc < size_of sizes y)%nat) ->
+  S n = rem sizes (l1 ++ b :: l2) acc ->
+  count_bloc b (b :: acc) <> size_of sizes b ->
+  (forall y, In y (l1 ++ b :: l2) -> (count_bloc y (b :: acc) < size_of sizes y)%nat) /\
+  n = rem sizes (l1 ++ b :: l2) (b :: acc).
+Proof.
+  intros sizes l1 l2 b acc n Hb1 Hb2 Hlt Hn Hroom.
+  assert (Hbin : In b (l1 ++ b :: l2)) by (apply in_or_app; right; left; reflexivity).
+  pose proof (Hlt b Hbin) as Hltb. rewrite count_bloc_cons_same in Hroom. split.
+  - intros y Hy. destruct (Pos.eq_dec y b) as [->|Hne].
+    + rewrite count_bloc_cons_same. lia.
+    + rewrite count_bloc_cons_other by exact Hne. apply Hlt. exact Hy.
+  - rewrite rem_app, rem_cons in Hn.
+    rewrite rem_app, rem_cons, (rem_notin sizes l1 b acc Hb1), (rem_notin sizes l2 b acc Hb2).
+    rewrite count_bloc_cons_same. lia.
+Qed.
+
+Lemma Forall_remove_mid : forall (P : Q -> Prop) (m1 m2 : list Q) x,
+  Forall P (m1 ++ x :: m2) -> Forall P (m1 ++ m2).
+Proof.
+  intros P m1 m2 x H. apply Forall_app in H. destruct H as [H1 H2].
+  inversion H2 as [|y l Hx H2']; subst. apply Forall_app. split; assumption.
+Qed.
+
+(* ------------------------------------------------------------------ *)
+(** * B2. [law_types] is a probability law *)
+
+Theorem law_types_mass : forall sizes n blocs values acc,
+  NoDup blocs -> length blocs = length values ->
+  Forall (fun v => 0 <= v) values ->
+  (blocs <> [] -> 0 < qsum values) ->
+  (forall b, In b blocs -> (count_bloc b acc < size_of sizes b)%nat) ->
+  n = list_sum (map (fun b => size_of sizes b - count_bloc b acc)%nat blocs) ->
+  mass (law_types n blocs values sizes acc) == 1.
+Proof.
+  intros sizes n. induction n as [|n IH]; intros blocs values acc Hnd Hlen Hnn Hpos Hlt Hn.
+  - cbn [law_types]. apply mass_dret.
+  - change (S n = rem sizes blocs acc) in Hn.
+    assert (Hne : blocs <> []) by (intros ->; cbn in Hn; discriminate).
+    pose proof (Hpos Hne) as HW.
+    rewrite law_types_S, mass_dbind_one.
+    + apply mass_categorical. rewrite map_snd_combine_seq. intros E. rewrite E in HW.
+      apply (Qlt_irrefl 0). exact HW.
+    + intros i w Hin. destruct (categorical_index values i w Hin) as (x & Ex).
+      destruct (nth_error_same_length _ _ blocs values i x Hlen Ex) as (b & Eb). rewrite Eb.
+      destruct (step_decomp blocs i b Hnd Eb) as (l1 & l2 & Hb & Hl1 & Hrb & Hb1 & Hb2 & Hnd').
+      destruct (nth_error_decomp _ values i x Ex) as (m1 & m2 & Hv & Hm1 & Hrv).
+      assert (Hlen' : length (l1 ++ l2) = length (m1 ++ m2)).
+      { rewrite Hb, Hv, !app_length in Hlen. cbn [length] in Hlen. rewrite !app_length. lia. }
+      pose proof Hnn as Hnn'. rewrite Hv in Hnn'. apply Forall_remove_mid in Hnn'.
+      rewrite Hb in Hlt, Hn.
+      unfold types_branch. rewrite Hrb, Hrv.
+      destruct (Nat.eqb_spec (count_bloc b (b :: acc)) (size_of sizes b)) as [Hfull|Hroom].
+      * destruct (step_full sizes l1 l2 b acc n Hb1 Hb2 Hlt Hn Hfull) as (Hlt' & Hn').
+        destruct (Qeq_bool (qsum (m1 ++ m2)) 0 && nonempty (m1 ++ m2)) eqn:Ez.
+        -- rewrite mass_dbind_one; [|intros s q _; apply mass_dret].
+           apply mass_uniform_of. apply arrangements_nonempty.
+        -- set (tot := qsum (m1 ++ m2)) in *.
+           assert (Htot : m1 ++ m2 = [] \/ 0 < tot).
+           { destruct (m1 ++ m2) as [|w0 ws] eqn:Em; [left; reflexivity|right].
+             cbn [nonempty] in Ez. rewrite andb_true_r in Ez. apply Lib_rk.Qeq_bool_false_iff in Ez.
+             pose proof (qsum_nonneg _ Hnn') as Hge. fold tot in Hge.
+             destruct (Qlt_le_dec 0 tot) as [Hp|Hq]; [exact Hp|].
+             exfalso. apply Ez. apply Qle_antisym; assumption. }
+           apply IH; try assumption.
+           ++ rewrite map_length. exact Hlen'.
+           ++ apply Forall_forall. intros y Hy. apply in_map_iff in Hy. destruct Hy as (y0 & <- & Hy0).
+              destruct Htot as [Hnil|Hp]; [rewrite Hnil in Hy0; destruct Hy0|].
+              assert (0 <= y0) by (rewrite Forall_forall in Hnn'; apply Hnn'; exact Hy0).
+              apply Qle_shift_div_l; [exact Hp|]. lra.
+           ++ intros Hne'. destruct Htot as [Hnil|Hp].
+              ** exfalso. apply Hne'. apply length_zero_iff_nil. rewrite Hlen', Hnil. reflexivity.
+              ** unfold tot. rewrite renormalised_sum_one; [reflexivity|]. fold tot. lra.
+      * destruct (step_room sizes l1 l2 b acc n Hb1 Hb2 Hlt Hn Hroom) as (Hlt' & Hn').
+        rewrite <- Hb in Hlt', Hn'. apply IH; assumption.
+Qed.
+
+(* ------------------------------------------------------------------ *)
+(** * B3. closed form of [law_types] for positive cohesion values *)
+
+(* every outcome extends the part already drawn *)
+Lemma law_types_prefix : forall sizes n blocs values acc o w,
+  In (o, w) (law_types n blocs values sizes acc) -> exists s, o = rev acc ++ s.
+Proof.
+  intros sizes n. induction n as [|n IH]; intros blocs values acc o w H.
+  - cbn [law_types] in H. destruct H as [E|[]]. injection E as <- _. exists []. rewrite app_nil_r. reflexivity.
+  - rewrite law_types_S in H. apply dbind_support in H. destruct H as (i & w1 & q & _ & Hin & _).
+    destruct (nth_error blocs i) as [b|]; [|destruct Hin].
+    assert (Hcons : forall s, rev (b :: acc) ++ s = rev acc ++ b :: s).
+    { intros s. cbn [rev]. rewrite <- app_assoc. reflexivity. }
+    unfold types_branch in Hin.
+    destruct (Nat.eqb (count_bloc b (b :: acc)) (size_of sizes b)).
+    + destruct (Qeq_bool (qsum (remove_nth i values)) 0 && nonempty (remove_nth i values)).
+      * apply dbind_support in Hin. destruct Hin as (s & w2 & q2 & _ & Hd & _).
+        destruct Hd as [E|[]]. injection E as <- _. exists (b :: s). apply Hcons.
+      * destruct (IH _ _ _ _ _ Hin) as (s & ->). exists (b :: s). apply Hcons.
+    + destruct (IH _ _ _ _ _ Hin) as (s & ->). exists (b :: s). apply Hcons.
+Qed.
+
+Lemma types_branch_prefix : forall sizes n blocs values acc i b o w,
+  In (o, w) (types_branch n blocs values sizes acc i b) -> exists s, o = rev acc ++ b :: s.
+Proof.
+  intros sizes n blocs values acc i b o w Hin.
+  assert (Hcons : forall s, rev (b :: acc) ++ s = rev acc ++ b :: s).
+  { intros s. cbn [rev]. rewrite <- app_assoc. reflexivity. }
+  unfold types_branch in Hin.
+  destruct (Nat.eqb (count_bloc b (b :: acc)) (size_of sizes b)).
+  - destruct (Qeq_bool (qsum (remove_nth i values)) 0 && nonempty (remove_nth i values)).
+    + apply dbind_support in Hin. destruct Hin as (s & w2 & q2 & _ & Hd & _).
+      destruct Hd as [E|[]]. injection E as <- _. exists s. apply Hcons.
+    + destruct (law_types_prefix _ _ _ _ _ _ _ Hin) as (s & ->). exists s. apply Hcons.
+  - destruct (law_types_prefix _ _ _ _ _ _ _ Hin) as (s & ->). exists s. apply Hcons.
+Qed.
+
+(* a branch that drew another slate than the head of the target contributes nothing *)
+Lemma prob_branch_other : forall sizes n blocs values acc i b b0 t',
+  b <> b0 ->
+  prob (list_peqb (rev acc ++ b0 :: t')) (types_branch n blocs values sizes acc i b) == 0.
+Proof.
+  intros sizes n blocs values acc i b b0 t' Hne.
+  rewrite (prob_ext_in _ (fun _ => false)); [apply prob_false|].
+  intros o w Hin. destruct (types_branch_prefix _ _ _ _ _ _ _ _ _ Hin) as (s & ->).
+  apply list_peqb_false_iff. intros E. apply app_inv_head in E. injection E as E _. congruence.
+Qed.
+
+Lemma Forall2_same_length : forall (A B : Type) (R : A -> B -> Prop) (l : list A) (m : list B),
+  Forall2 R l m -> length l = length m.
+Proof.
+  intros A B R l m H. induction H as [|a b l m _ _ IH]; [reflexivity|]. cbn [length]. rewrite IH. reflexivity.
+Qed.
+
+(* values that are the cohesion values [v] up to a common positive factor *)
+Lemma scaled_sum : forall (v : bloc -> Q) k l m,
+  Forall2 (fun b x => x == k * v b) l m -> qsum m == k * qsum (map v l).
+Proof.
+  intros v k l m H. induction H as [|b x l m Hx _ IH].
+  - cbn [map]. rewrite qsum_nil. ring.
+  - cbn [map]. rewrite !qsum_cons, IH, Hx. ring.
+Qed.
+
+Lemma scaled_lookup : forall (v : bloc -> Q) k l m b0,
+  Forall2 (fun b x => x == k * v b) l m ->
+  lookupP (combine l m) b0 == if existsb (Pos.eqb b0) l then k * v b0 else 0.
+Proof.
+  intros v k l m b0 H. induction H as [|b x l m Hx _ IH].
+  - reflexivity.
+  - cbn [combine existsb]. rewrite lookupP_cons. destruct (Pos.eqb_spec b0 b) as [->|Hne]; cbn [orb].
+    + exact Hx.
+    + exact IH.
+Qed.
+
+Lemma scaled_div : forall (v : bloc -> Q) k tot l m,
+  Forall2 (fun b x => x == k * v b) l m ->
+  Forall2 (fun b x => x == (k / tot) * v b) l (map (fun y => y / tot) m).
+Proof.
+  intros v k tot l m H. induction H as [|b x l m Hx _ IH]; cbn [map]; constructor; [|exact IH].
+  rewrite Hx. unfold Qdiv. ring.
+Qed.
+
+Lemma pos_map_sum : forall (v : bloc -> Q) (l : list bloc),
+  (forall b, In b l -> 0 < v b) -> l <> [] -> 0 < qsum (map v l).
+Proof.
+  intros v [|b l] Hpos Hne; [contradiction|].
+  apply (qsum_map_pos v (b :: l) b).
+  - intros y Hy. apply Qlt_le_weak. apply Hpos. exact Hy.
+  - left. reflexivity.
+  - apply Hpos. left. reflexivity.
+Qed.
+
+Lemma scaled_total_pos : forall (v : bloc -> Q) k l m,
+  0 < k -> (forall b, In b l -> 0 < v b) -> l <> [] ->
+  Forall2 (fun b x => x == k * v b) l m -> 0 < qsum m.
+Proof.
+  intros v k l m Hk Hpos Hne H. rewrite (scaled_sum v k l m H).
+  apply Qmult_lt_0_compat; [exact Hk|apply pos_map_sum; assumption].
+Qed.
+
+(* with positive values the "all remaining values are zero" test never fires *)
+Lemma scaled_no_shuffle : forall (v : bloc -> Q) k l m,
+  0 < k -> (forall b, In b l -> 0 < v b) ->
+  Forall2 (fun b x => x == k * v b) l m ->
+  Qeq_bool (qsum m) 0 && nonempty m = false.
+Proof.
+  intros v k l m Hk Hpos H. destruct H as [|b x l m Hx H].
+  - apply andb_false_r.
+  - cbn [nonempty]. rewrite andb_true_r. apply Lib_rk.Qeq_bool_false_iff.
+    assert (Hp : 0 < qsum (x :: m)).
+    { apply (scaled_total_pos v k (b :: l) (x :: m) Hk Hpos); [discriminate|]. constructor; assumption. }
+    intros E. rewrite E in Hp. apply (Qlt_irrefl 0). exact Hp.
+Qed.
+
+(* renormalising keeps the values proportional to [v] *)
+Lemma scaled_renorm : forall (v : bloc -> Q) k l m,
+  0 < k -> (forall b, In b l -> 0 < v b) ->
+  Forall2 (fun b x => x == k * v b) l m ->
+  exists k', 0 < k' /\ Forall2 (fun b x => x == k' * v b) l (map (fun y => y / qsum m) m).
+Proof.
+  intros v k l m Hk Hpos H. destruct l as [|b l].
+  - inversion H; subst. exists k. split; [exact Hk|constructor].
+  - assert (Hp : 0 < qsum m) by (apply (scaled_total_pos v k (b :: l) m Hk Hpos); [discriminate|exact H]).
+    exists (k / qsum m). split.
+    + apply Qlt_shift_div_l; [exact Hp|lra].
+    + apply scaled_div. exact H.
+Qed.
+
+Lemma scaled_split : forall (v : bloc -> Q) k l1 b l2 m1 x m2,
+  length l1 = length m1 ->
+  Forall2 (fun b x => x == k * v b) (l1 ++ b :: l2) (m1 ++ x :: m2) ->
+  Forall2 (fun b x => x == k * v b) (l1 ++ l2) (m1 ++ m2) /\ x == k * v b.
+Proof.
+  intros v k l1 b l2 m1 x m2 Hlen H. apply Forall2_app_inv_l in H.
+  destruct H as (m1' & m2' & H1 & H2 & E).
+  pose proof (Forall2_same_length _ _ _ _ _ H1) as Hl1.
+  destruct (app_eq_len _ m1 m1' (x :: m2) m2' ltac:(lia) E) as [<- <-].
+  inversion H2 as [|b' x' l' m' Hx H2']; subst. split; [|exact Hx].
+  apply Forall2_app; assumption.
+Qed.
+
+(* slates that are not used up *)
+Lemma avail_all : forall sizes blocs acc,
+  (forall b, In b blocs -> (count_bloc b acc < size_of sizes b)%nat) -> avail sizes blocs acc = blocs.
+Proof.
+  intros sizes blocs acc. unfold avail. induction blocs as [|b blocs IH]; intros H; [reflexivity|].
+  cbn [filter]. assert (E : Nat.ltb (count_bloc b acc) (size_of sizes b) = true).
+  { apply Nat.ltb_lt. apply H. left. reflexivity. }
+  rewrite E, IH; [reflexivity|]. intros y Hy. apply H. right. exact Hy.
+Qed.
+
+Lemma avail_drop : forall sizes l1 b l2 acc,
+  (size_of sizes b <= count_bloc b acc)%nat ->
+  avail sizes (l1 ++ b :: l2) acc = avail sizes (l1 ++ l2) acc.
+Proof.
+  intros sizes l1 b l2 acc H. unfold avail. rewrite !filter_app. cbn [filter].
+  assert (E : Nat.ltb (count_bloc b acc) (size_of sizes b) = false) by (apply Nat.ltb_ge; exact H).
+  rewrite E. reflexivity.
+Qed.
+
+(* a used-up slate can be dropped from the list of slates *)
+Lemma types_closed_drop : forall (v : bloc -> Q) sizes l1 b l2 t acc,
+  (size_of sizes b <= count_bloc b acc)%nat ->
+  types_closed v sizes (l1 ++ b :: l2) acc t = types_closed v sizes (l1 ++ l2) acc t.
+Proof.
+  intros v sizes l1 b l2 t. induction t as [|x t IH]; intros acc H; [reflexivity|].
+  cbn [types_closed]. rewrite (avail_drop sizes l1 b l2 acc H), IH; [reflexivity|].
+  rewrite count_bloc_cons. lia.
+Qed.
+
+Lemma law_types_closed_gen : forall sizes (v : bloc -> Q) n blocs values acc t,
+  NoDup blocs -> (forall b, In b blocs -> 0 < v b) ->
+  (forall b, In b blocs -> (count_bloc b acc < size_of sizes b)%nat) ->
+  (exists k, 0 < k /\ Forall2 (fun b x => x == k * v b) blocs values) ->
+  n = rem sizes blocs acc -> length t = n ->
+  prob (list_peqb (rev acc ++ t)) (law_types n blocs values sizes acc)
+  == types_closed v sizes blocs acc t.
+Proof.
+  intros sizes v n. induction n as [|n IH]; intros blocs values acc t Hnd Hpos Hlt Hsc Hn Hlen.
+  - destruct t as [|b0 t']; [|discriminate]. cbn [law_types types_closed].
+    rewrite prob_dret, app_nil_r, list_peqb_refl. reflexivity.
+  - destruct t as [|b0 t']; [discriminate|]. cbn [length] in Hlen. injection Hlen as Hlen.
+    destruct Hsc as (k & Hk & Hsc). pose proof (Forall2_same_length _ _ _ _ _ Hsc) as Hlenbv.
+    assert (Hne : blocs <> []) by (intros ->; cbn in Hn; discriminate).
+    pose proof (pos_map_sum v blocs Hpos Hne) as HS.
+    pose proof (scaled_sum v k blocs values Hsc) as HW.
+    cbn [types_closed]. rewrite (avail_all sizes blocs acc Hlt).
+    (* the two possible continuations after drawing b0 have the probability of the rest *)
+    assert (Hsame : forall j x, nth_error blocs j = Some b0 -> nth_error values j = Some x ->
+              prob (list_peqb (rev acc ++ b0 :: t')) (types_branch n blocs values sizes acc j b0)
+              == types_closed v sizes blocs (b0 :: acc) t').
+    { intros j x Eb Ex.
+      replace (rev acc ++ b0 :: t') with (rev (b0 :: acc) ++ t')
+        by (cbn [rev]; rewrite <- app_assoc; reflexivity).
+      destruct (step_decomp blocs j b0 Hnd Eb) as (l1 & l2 & Hb & Hl1 & Hrb & Hb1 & Hb2 & Hnd').
+      destruct (nth_error_decomp _ values j x Ex) as (m1 & m2 & Hv & Hm1 & Hrv).
+      pose proof Hsc as Hsc'. rewrite Hb, Hv in Hsc'.
+      destruct (scaled_split v k l1 b0 l2 m1 x m2 ltac:(lia) Hsc') as (Hsc'' & Hx).
+      pose proof Hlt as Hlt0. pose proof Hn as Hn0. rewrite Hb in Hlt0, Hn0.
+      assert (Hpos' : forall y, In y (l1 ++ l2) -> 0 < v y).
+      { intros y Hy. apply Hpos. rewrite Hb. apply in_app_or in Hy. apply in_or_app.
+        destruct Hy; [left|right; right]; assumption. }
+      unfold types_branch. rewrite Hrb, Hrv.
+      destruct (Nat.eqb_spec (count_bloc b0 (b0 :: acc)) (size_of sizes b0)) as [Hfull|Hroom].
+      - destruct (step_full sizes l1 l2 b0 acc n Hb1 Hb2 Hlt0 Hn0 Hfull) as (Hlt' & Hn').
+        rewrite (scaled_no_shuffle v k (l1 ++ l2) (m1 ++ m2) Hk Hpos' Hsc'').
+        rewrite (IH (l1 ++ l2) _ (b0 :: acc) t' Hnd' Hpos' Hlt'
+                    (scaled_renorm v k (l1 ++ l2) (m1 ++ m2) Hk Hpos' Hsc'') Hn' Hlen).
+        rewrite Hb. symmetry. rewrite types_closed_drop; [reflexivity|]. rewrite Hfull. apply le_n.
+      - destruct (step_room sizes l1 l2 b0 acc n Hb1 Hb2 Hlt0 Hn0 Hroom) as (Hlt' & Hn').
+        rewrite <- Hb in Hlt', Hn'.
+        apply (IH blocs values (b0 :: acc) t' Hnd Hpos Hlt'); [|exact Hn'|exact Hlen].
+        exists k. split; [exact Hk|exact Hsc]. }
+    set (T := types_closed v sizes blocs (b0 :: acc) t') in *.
+    set (ev := list_peqb (rev acc ++ b0 :: t')) in *.
+    rewrite law_types_S, prob_dbind. unfold categorical. rewrite map_map. cbn [fst snd].
+    rewrite map_snd_combine_seq.
+    set (W := qsum values) in *.
+    pose (f := fun (i : nat) (x : Q) =>
+                 x / W * prob ev (match nth_error blocs i with
+                                  | None => []
+                                  | Some b => types_branch n blocs values sizes acc i b
+                                  end)).
+    pose (g := fun (b : bloc) (x : Q) => if Pos.eqb b0 b then x * (T / W) else 0).
+    transitivity (qsum (map (fun p : bloc * Q => g (fst p) (snd p)) (combine blocs values))).
+    + rewrite <- (qsum_combine_seq_reindex blocs values 0 f g Hlenbv).
+      * apply qsum_map_ext_in. intros [i x] _. reflexivity.
+      * intros j b x Eb Ex. cbn [Nat.add]. unfold f, g. rewrite Eb.
+        destruct (Pos.eqb_spec b0 b) as [<-|Hneb].
+        -- rewrite (Hsame j x Eb Ex). unfold Qdiv. ring.
+        -- unfold ev. rewrite prob_branch_other by congruence. ring.
+    + unfold g. rewrite (sum_select (combine blocs values) b0 (T / W)).
+      * rewrite (scaled_lookup v k blocs values b0 Hsc).
+        destruct (existsb (Pos.eqb b0) blocs).
+        -- rewrite HW. field. split; lra.
+        -- ring.
+      * rewrite map_fst_combine_eq; assumption.
+Qed.
+
+Theorem law_types_closed_pos : forall sizes (v : bloc -> Q) blocs t,
+  NoDup blocs ->
+  (forall b, In b blocs -> 0 < v b /\ (1 <= size_of sizes b)%nat) ->
+  length t = list_sum (map (size_of sizes) blocs) ->
+  prob (list_peqb t) (law_types (length t) blocs (map v blocs) sizes [])
+  == types_closed v sizes blocs [] t.
+Proof.
+  intros sizes v blocs t Hnd Hpos Hlen.
+  apply (law_types_closed_gen sizes v (length t) blocs (map v blocs) [] t Hnd).
+  - intros b Hb. apply (Hpos b Hb).
+  - intros b Hb. rewrite count_bloc_nil. destruct (Hpos b Hb) as [_ H]. lia.
+  - exists 1. split; [reflexivity|]. clear. induction blocs as [|b blocs IH]; cbn [map]; constructor.
+    + ring.
+    + exact IH.
+  - rewrite Hlen. unfold rem. f_equal. apply map_ext. intros b. rewrite count_bloc_nil. lia.
+  - reflexivity.
+Qed.
